@@ -1,23 +1,14 @@
 -- FAMILY: C34
 import Driver.Util
 import IQE.Engine.FrontDoor
-import IQE.Gen.FrontDoor
 open Lean IQE.Engine IQE.Engine.FrontDoor
 namespace Driver.C34
 
-def modeOfGen : IQE.Gen.FrontDoor.DistMode → Mode
-  | .Auto => .auto
-  | .Force => .force
-  | .Off => .off
-
-/-- Flight's vocabulary: the GENERATED `parse_mode` -/
-def flightMode (v : String) : Option Mode :=
-  match IQE.Gen.FrontDoor.parse_mode v with
-  | .ok m => some (modeOfGen m)
-  | .error _ => none
-
-def maxTicket : Nat := IQE.Gen.FrontDoor.MAX_TICKET_BYTES.toNat
-def maxRows : Nat := IQE.Gen.FrontDoor.MAX_ENCODE_ROWS.toNat
+/-- Flight's vocabulary and the two constants: hand-written copies, proved equal to the translator-generated
+    `parse_mode`, `MAX_TICKET_BYTES`, `MAX_ENCODE_ROWS` in IQE.Props.C34 -/
+def flightMode (v : String) : Option Mode := parseModeFlight v
+def maxTicket : Nat := maxTicketBytes
+def maxRows : Nat := maxEncodeRows
 
 def optStr (j : Json) (k : String) : Option String :=
   match j.getObjVal? k with
@@ -63,23 +54,25 @@ def handleTicket (c i : Json) : Except String Driver.Verdict := do
   let form ← Driver.getStr t "form"
   let node ← Driver.getStr c "node"
   let modeStr := (optStr t "mode").getD "auto"
-  let text := (optStr t "text").getD ""
   let tk : Ticket :=
     { bytes := if form == "huge" then maxTicket + 1 else 100,
       jsonOk := form == "json" || form == "nomode" || form == "huge",
       version := if form == "json" then (t.getObjValAs? Nat "v").toOption.getD 0 else 1,
       mode := if form == "json" then flightMode modeStr else some .auto }
-  let _ := text
   let verdict := validateTicket maxTicket tk
   let got := rpc i "doget"
-  let sql := (optStr t "sql").getD ""
-  let expected : String :=
-    match verdict with
-    | .refused => "InvalidArgument"
-    | .run m => if node == "X" then "Unavailable" else if isErrorStatement sql m then "error" else "ok"
-  let k : Bool := match got with
-    | some g => if expected == "error" then g != "ok" && g != "Unavailable" else g == expected
-    | none => false
+  let httpStatus : Option Nat := (i.getObjVal? "http").toOption.bind (fun h => (h.getObjValAs? Nat "status").toOption)
+  let httpClass : String := match httpStatus with
+    | some 200 => "ok" | some 501 => "Unimplemented" | some 503 => "Unavailable" | some 400 => "error" | some 500 => "Internal" | _ => "?"
+  -- an accepted ticket must end as POST /sql ends for the same statement and mode
+  let k : Bool := match verdict, got with
+    | .refused, some g => g == "InvalidArgument"
+    | .run _, some g =>
+      if node == "X" then g == "Unavailable"
+      else if httpClass == "ok" then g == "ok"
+      else if httpClass == "error" then g == "InvalidArgument" || g == "NotFound" || g == "Internal"
+      else g == httpClass
+    | _, none => false
   let o : Option String :=
     match verdict, got with
     | .refused, some "ok" => some "a malformed / oversized / unknown-version / unknown-mode ticket was served"
